@@ -3,22 +3,22 @@
    Print Assumptions follows every theorem.  numDocs <= 2^64 excludes the (unreachable) collision of a chunk number with the reader's nothing-loaded sentinel math.MaxInt64; dv_visit_needs_bound shows the statement is false without it. *)
 
 From Coq Require Import List NArith Bool Sorting Permutation.
-From Ice Require Import Base Chunk DocValues.
-From IceProofs Require DocValues_Proofs.
+From Ice Require Import Base Chunk DocValues Spec Run DvWriter.
+From IceProofs Require DocValues_Proofs DvWriter_Proofs.
 Import ListNotations.
 Open Scope N_scope.
 
 (* the separator loop recovers the terms (no 0xff inside a term) *)
 Theorem split_dv_bytes :
     forall ts : list bytes, Forall DocValues_Proofs.no_sep ts -> split_terms [] (dv_bytes ts) = ts.
-Proof. exact DocValues_Proofs.split_dv_bytes. Qed.
+Proof. exact @DocValues_Proofs.split_dv_bytes. Qed.
 Print Assumptions split_dv_bytes.
 
 Theorem split_ignores_tail :
     forall (ts : list bytes) (tail : bytes),
     Forall DocValues_Proofs.no_sep ts ->
     DocValues_Proofs.no_sep tail -> split_terms [] (dv_bytes ts ++ tail) = ts.
-Proof. exact DocValues_Proofs.split_ignores_tail. Qed.
+Proof. exact @DocValues_Proofs.split_ignores_tail. Qed.
 Print Assumptions split_ignores_tail.
 
 (* any document, from ANY consistent reader state (i.e. after any earlier visits in any order): exactly its terms; the reader stays consistent *)
@@ -34,7 +34,7 @@ Theorem dv_visit_correct :
     dv_visit r field n = Ok (r', DocValues_Proofs.spec_dv field es n) /\
     DocValues_Proofs.reader_ok
     (dv_chunks (DocValues_Proofs.nchunks_for numDocs) (DocValues_Proofs.enc_entries es)) r'.
-Proof. exact DocValues_Proofs.dv_visit_correct. Qed.
+Proof. exact @DocValues_Proofs.dv_visit_correct. Qed.
 Print Assumptions dv_visit_correct.
 
 (* any finite visiting order with one reader *)
@@ -47,7 +47,7 @@ Theorem dv_run_single_field :
     DocValues_Proofs.reader_ok
     (dv_chunks (DocValues_Proofs.nchunks_for numDocs) (DocValues_Proofs.enc_entries es)) r ->
     dv_run [(field, r)] [field] visits = Ok (map (DocValues_Proofs.spec_dv field es) visits).
-Proof. exact DocValues_Proofs.dv_run_single_field. Qed.
+Proof. exact @DocValues_Proofs.dv_run_single_field. Qed.
 Print Assumptions dv_run_single_field.
 
 (* any list of requested fields (repeats, unknown fields, fields without doc values) and any visiting order *)
@@ -75,7 +75,7 @@ Theorem dv_run_fields :
     | Some p => DocValues_Proofs.spec_dv f (snd p) n
     | None => []
     end) fields) visits).
-Proof. exact DocValues_Proofs.dv_run_fields. Qed.
+Proof. exact @DocValues_Proofs.dv_run_fields. Qed.
 Print Assumptions dv_run_fields.
 
 (* nothing for fields without doc values and unknown fields *)
@@ -83,12 +83,12 @@ Theorem dv_run_unknown_field :
     forall (rs : list (bytes * DvReader)) (f : bytes) (visits : list N),
     find (fun p : bytes * DvReader => beq (fst p) f) rs = None ->
     dv_run rs [f] visits = Ok (map (fun _ : N => []) visits).
-Proof. exact DocValues_Proofs.dv_run_unknown_field. Qed.
+Proof. exact @DocValues_Proofs.dv_run_unknown_field. Qed.
 Print Assumptions dv_run_unknown_field.
 
 Theorem dv_open_ok :
     forall chunks : list DvChunk, DocValues_Proofs.reader_ok chunks (dv_open chunks).
-Proof. exact DocValues_Proofs.dv_open_ok. Qed.
+Proof. exact @DocValues_Proofs.dv_open_ok. Qed.
 Print Assumptions dv_open_ok.
 
 (* the bound on numDocs is necessary in the model *)
@@ -104,7 +104,7 @@ Theorem dv_visit_needs_bound :
     dv_visit r field n = Ok (r', DocValues_Proofs.spec_dv field es n) /\
     DocValues_Proofs.reader_ok
     (dv_chunks (DocValues_Proofs.nchunks_for numDocs) (DocValues_Proofs.enc_entries es)) r').
-Proof. exact DocValues_Proofs.dv_visit_needs_bound. Qed.
+Proof. exact @DocValues_Proofs.dv_visit_needs_bound. Qed.
 Print Assumptions dv_visit_needs_bound.
 
 Example dv_run_example :
@@ -116,5 +116,70 @@ Example dv_run_example :
     Ok
     [[(f, [9; 9])]; [(f, [1; 2])]; [(f, [7]); (f, [8])]; [(f, [3]); (f, [4; 5])]; [(
     f, [6])]; [(f, [9; 9])]; []].
-Proof. exact DocValues_Proofs.dv_run_example. Qed.
+Proof. exact @DocValues_Proofs.dv_run_example. Qed.
 Print Assumptions dv_run_example.
+
+(* the builder (docTermMap filled by walking the sorted terms, chunkedContentCoder) writes exactly the doc-value chunks of the specification: per document its terms in sorted order, each followed by 0xff *)
+Theorem build_dv_correct :
+    forall (norm : bytes -> N -> N) (b : Batch) (f : bytes),
+    dv_flag b f = true ->
+    let A := abs_of_batch norm b in
+    build_dv true (lenN b) (dv_field_terms A f) =
+    Ok (Some (dv_chunks (DvWriter_Proofs.nch_of (lenN b)) (dv_entries A f))).
+Proof. exact @DvWriter_Proofs.build_dv_correct. Qed.
+Print Assumptions build_dv_correct.
+
+(* the merger (iterateAllDocValues over every input chunk, dropped documents skipped, re-added under the new number) writes exactly the chunks of the surviving documents, also with a wholly empty chunk in an input and inputs without doc values *)
+Theorem merge_dv_correct :
+    forall (f : bytes) (ins : list (ASeg * list N)) (sel : list (option bool)),
+    let M := fst (merge_spec ins) in
+    Forall2 (fun (p : ASeg * list N) (s : option bool) => s <> Some true -> dv_entries (fst p) f = []) ins
+    sel ->
+    0 < o_count M ->
+    o_count M <= docDropped ->
+    merge_dv (o_count M)
+    (map DvWriter_Proofs.in_chunks
+    (DvWriter_Proofs.sel_inputs f (combine ins (merge_docnums ins 0)) sel)) =
+    Ok
+    (if existsb DvWriter_Proofs.is_reader sel
+    then Some (dv_chunks (DvWriter_Proofs.nch_of (o_count M)) (dv_entries M f))
+    else None).
+Proof. exact @DvWriter_Proofs.merge_dv_correct. Qed.
+Print Assumptions merge_dv_correct.
+
+Theorem coder_chunks_1024 :
+    forall (maxDocNum : N) (entries : list (N * bytes)),
+    DocValues_Proofs.asc entries ->
+    Forall (fun e : N * bytes => fst e <= maxDocNum) entries ->
+    cc_run dv_chunk_docs maxDocNum entries =
+    Ok (dv_chunks (N.to_nat (maxDocNum / dv_chunk_docs + 1)) entries).
+Proof. exact @DvWriter_Proofs.coder_chunks_1024. Qed.
+Print Assumptions coder_chunks_1024.
+
+(* the delta-coded chunk header round-trips *)
+Theorem parse_blob_round :
+    forall c : DvChunk,
+    lenN (dvc_header c) < two64 ->
+    DvWriter_Proofs.meta_ok (dvc_header c) -> parse_blob (blob_bytes c) = Some c.
+Proof. exact @DvWriter_Proofs.parse_blob_round. Qed.
+Print Assumptions parse_blob_round.
+
+Example merge_dv_example_segments :
+    let M := fst (merge_spec DvWriter_Proofs.exs_ins) in
+    o_count M = 2048 /\
+    forallb
+    (fun ps : ASeg * list N * option bool =>
+    DvWriter_Proofs.is_reader (snd ps)
+    || match dv_entries (fst (fst ps)) DvWriter_Proofs.exw_t with
+    | [] => true
+    | _ :: _ => false
+    end) (combine DvWriter_Proofs.exs_ins DvWriter_Proofs.exs_sel) = true /\
+    merge_dv (o_count M)
+    (map DvWriter_Proofs.in_chunks
+    (DvWriter_Proofs.sel_inputs DvWriter_Proofs.exw_t
+    (combine DvWriter_Proofs.exs_ins (merge_docnums DvWriter_Proofs.exs_ins 0))
+    DvWriter_Proofs.exs_sel)) =
+    Ok (Some (dv_chunks (DvWriter_Proofs.nch_of (o_count M)) (dv_entries M DvWriter_Proofs.exw_t))) /\
+    lenN (dv_entries M DvWriter_Proofs.exw_t) = 1022.
+Proof. exact @DvWriter_Proofs.merge_dv_example_segments. Qed.
+Print Assumptions merge_dv_example_segments.
